@@ -117,7 +117,8 @@ HttpEv ==
           ELSE IF ids \cap FoundIds # {} THEN Flag("FETCH: a chunk found in the prior output or a seed was requested from the archive") /\ UNCHANGED <<fetched, lastreq, lastcut, ncuts>>
           ELSE IF ids \cap fetched # {} THEN Flag("FETCH: chunk requested from the archive twice") /\ UNCHANGED <<fetched, lastreq, lastcut, ncuts>>
           ELSE IF ~(ids \subseteq NeededIds) THEN Flag("FETCH: chunk that the source does not need was requested") /\ UNCHANGED <<fetched, lastreq, lastcut, ncuts>>
-          ELSE /\ fetched' = fetched \cup ids /\ lastreq' = <<Ev.first, Ev.last>> /\ lastcut' = Ev.cut /\ ncuts' = ncuts + (IF Ev.cut >= 0 THEN 1 ELSE 0)
+          \* a new run: the retry budget is per range request (bitar gives every HttpRangeRequest its own count), so the failures are counted per run
+          ELSE /\ fetched' = fetched \cup ids /\ lastreq' = <<Ev.first, Ev.last>> /\ lastcut' = Ev.cut /\ ncuts' = (IF Ev.cut >= 0 THEN 1 ELSE 0)
                /\ (IF lastreq[2] + 1 = Ev.first THEN FlagSoft("MAXRUN: two requests for back-to-back stored chunks (the run was not requested as one range)")
                    ELSE IF Ev.first <= lastreq[2] THEN FlagSoft("MAXRUN: chunk-data requests are not in archive order")
                    ELSE NoFlag)
